@@ -75,7 +75,7 @@ def gen_case(rng, tier, i):
     return {"layout": {"axes": axes, "extra": layout.extra}, "bind": bind, "ins": ins, "outs": outs,
             "bw": bw, "opts": opts, "other": other, "how": how, "hints": rng.random() < 0.3 and n_out > 0
             and all(len(o) > 0 for o in outs) and all(len(a) > 0 for a in ins), "data": data,
-            "grid_boundary": rng.choice(RULES)}
+            "grid_boundary": rng.choice(RULES), "pad_before": rng.random() < 0.75}
 
 
 def sig_text(ins, outs):
@@ -98,10 +98,12 @@ def eval_case(case, drv):
     recorded = []
     out_sizes = [[ds.sizes[layout.axis(bind[d])["coords"][p]] for d, p in o] for o in outs_eff]
 
+    state = {"out_sizes": out_sizes}
+
     def func(*arrs):
         recorded.append([np.array(a, copy=True) for a in arrs])
         lead = np.broadcast_shapes(*[a.shape[: a.ndim - len(ins[k])] for k, a in enumerate(arrs)])
-        res = tuple(np.zeros(tuple(lead) + tuple(sz)) for sz in out_sizes)
+        res = tuple(np.zeros(tuple(lead) + tuple(sz)) for sz in state["out_sizes"])
         return res if len(res) > 1 else res[0]
     how = case["how"]
     eff_bw = case["bw"]
@@ -117,6 +119,24 @@ def eval_case(case, drv):
         if case["bw"]:
             call_kw["boundary_width"] = {d: tuple(w) for d, w in case["other"]["boundary_width"].items()}
             eff_bw = case["other"]["boundary_width"]
+    # pad_before_func=False: the function sees the unpadded inputs and its outputs are padded afterwards, so
+    # it has to return arrays shorter by the declared widths (only where that leaves something to return)
+    pad_before = case.get("pad_before", True)
+    if not pad_before:
+        after = [[ds.sizes[layout.axis(bind[d])["coords"][p]] - sum((eff_bw or {}).get(d, (0, 0))) for d, p in o]
+                 for o in outs_eff]
+        carries = bool(outs) and all(all(d in [dd for dd, _ in o] for d in (eff_bw or {})) for o in outs_eff)
+        if carries and all(x >= 1 for sz in after for x in sz):
+            state["out_sizes"] = after
+        else:
+            pad_before = True
+    if how in ("decorator",):
+        deco_kw["pad_before_func"] = pad_before
+    elif how in ("call", "apply"):
+        call_kw["pad_before_func"] = pad_before
+    else:                                  # bound one way, overridden at call time
+        deco_kw["pad_before_func"] = not pad_before
+        call_kw["pad_before_func"] = pad_before
     text = sig_text(ins, outs_eff)
     try:
         if how == "apply":
@@ -146,7 +166,7 @@ def eval_case(case, drv):
             + " ".join(enc_arr(d["dims"], np.array(d["values"], dtype=float).reshape([ds.sizes[x] for x in d["dims"]]))
                        for d in case["data"])
             + f" {len(axis)} " + " ".join(f"{len(a)} {' '.join(a)}" if a else "0" for a in axis)
-            + f" {bw_enc} {enc_kw(eff['boundary'])} {enc_kw(eff['fill_value'], enc_rat)} T")
+            + f" {bw_enc} {enc_kw(eff['boundary'])} {enc_kw(eff['fill_value'], enc_rat)} {'T' if pad_before else 'F'}")
     ans = drv.ask(line)
     offpos = any(layout.axis(bind[d])["coords"][p] not in case["data"][k]["dims"]
                  for k, a in enumerate(ins) for d, p in a)
@@ -183,7 +203,7 @@ def eval_case(case, drv):
             core = [layout.axis(bind[d])["coords"][p] for d, p in a]
             arr = da.transpose(*[x for x in da.dims if x not in core], *core)
             vals = arr.values
-            for d, w in (eff_bw or {}).items():
+            for d, w in ((eff_bw or {}) if pad_before else {}).items():
                 dim = next(c for c, (dd, p) in zip(core, a) if dd == d)
                 axn = list(arr.dims).index(dim)
                 pw = [(0, 0)] * vals.ndim
@@ -198,13 +218,17 @@ def eval_case(case, drv):
                 break
     # outputs on declared positions
     results = tuple(res) if isinstance(res, (tuple, list)) else (res,)
+    if len(results) != len(outs_eff):
+        prop_ok = False
+        detail["n_outputs"] = {"returned": len(results), "declared": len(outs_eff), "pad_before_func": pad_before}
     for o, r in zip(outs_eff, results):
         want_core = [layout.axis(bind[d])["coords"][p] for d, p in o]
         if list(r.dims[len(r.dims) - len(want_core):]) != want_core:
             prop_ok = False
             detail["outputs"] = {"dims": list(r.dims), "want_core": want_core}
     return {"corr_ok": corr_ok, "prop_ok": prop_ok,
-            "branch": f"{how}:{'hints' if case['hints'] and how != 'apply' else 'str'}:in{len(ins)}out{len(outs)}",
+            "branch": f"{how}:{'hints' if case['hints'] and how != 'apply' else 'str'}:in{len(ins)}out{len(outs)}"
+            + ("" if pad_before else ":padafter"),
             "detail": detail or None}
 
 
